@@ -17,6 +17,8 @@ import (
 	"encoding/json"
 	"errors"
 	"fmt"
+	"github.com/hashicorp/nodeenrollment/protocol"
+	"net"
 	"sort"
 	"strings"
 	"sync"
@@ -771,6 +773,84 @@ func ftNodeNewFlow(withToken bool) func(w *ftWorld) ftInst {
 	}
 }
 
+// ftDialFlow: the node side of an enrollment as protocol.Dial performs it (fetch, handle the response, store
+// the credentials, connect) with the fault on the node's storage. A Dial that reports success must have left
+// the node's storage with credentials that carry the issued certificates.
+func ftDialFlow(withToken bool) func(w *ftWorld) ftInst {
+	return func(w *ftWorld) ftInst {
+		var n *world.Node
+		var lw *world.LW
+		var conn net.Conn
+		return ftInst{
+			setup: func() error {
+				if err := w.nodeStorage(); err != nil {
+					return err
+				}
+				tok := ""
+				if withToken {
+					var err error
+					if _, tok, err = w.createToken(); err != nil {
+						return err
+					}
+				}
+				var err error
+				if n, err = world.NewNodeOn(w.nstore, w.cs.Wrap, tok); err != nil {
+					return err
+				}
+				if !withToken {
+					req, err := n.FetchRequest()
+					if err != nil {
+						return err
+					}
+					if _, err = registration.AuthorizeNode(w.ctx, w.s.Store, req, w.s.Opts()...); err != nil {
+						return fmt.Errorf("authorize: %w", err)
+					}
+				}
+				if lw, err = world.NewLW(w.s, world.LWCfg{}); err != nil {
+					return err
+				}
+				w.cleanups = append(w.cleanups, lw.Close)
+				w.own = append(w.own, n.K.KeyID)
+				return nil
+			},
+			call: func() error {
+				if conn != nil {
+					conn.Close()
+					conn = nil
+				}
+				var opts []nodeenrollment.Option
+				if withToken {
+					opts = append(opts, nodeenrollment.WithActivationToken(n.Token))
+				}
+				c, err := protocol.Dial(w.ctx, w.nstore, lw.Addr, n.NodeOpts(opts...)...)
+				if c != nil {
+					conn = c
+					if rec, werr := lw.Wait(c.LocalAddr().String()); werr == nil && rec.Returned && rec.Conn != nil {
+						rec.Conn.Close()
+					}
+					c.Close()
+				}
+				return err
+			},
+			judge: func(err error) {
+				if err != nil {
+					w.outcome = "error"
+					return
+				}
+				stored, lerr := types.LoadNodeCredentials(w.ctx, w.ninner, nodeenrollment.CurrentId, n.NodeOpts()...)
+				switch {
+				case lerr != nil:
+					w.viol("success-not-persisted", fmt.Sprintf("Dial reported success but the node's storage holds no loadable credentials (%v)", lerr))
+				case len(stored.CertificateBundles) == 0:
+					w.viol("success-not-persisted", "Dial enrolled the node and reported success but the credentials in the node's storage carry no certificates")
+				default:
+					w.outcome = "success-persisted"
+				}
+			},
+		}
+	}
+}
+
 func ftNodeHandleFlow(withToken bool) func(w *ftWorld) ftInst {
 	return func(w *ftWorld) ftInst {
 		var n *world.Node
@@ -959,6 +1039,8 @@ var ftFlows = []*ftFlow{
 	{name: "node-new-creds-token", mk: ftNodeNewFlow(true)},
 	{name: "node-handle-response", mk: ftNodeHandleFlow(false)},
 	{name: "node-handle-response-token", mk: ftNodeHandleFlow(true)},
+	{name: "node-dial-enroll", mk: ftDialFlow(false)},
+	{name: "node-dial-enroll-token", mk: ftDialFlow(true)},
 }
 
 func ftFlowByName(name string) *ftFlow {
